@@ -292,6 +292,8 @@ class extract_visitor(NodeVisitor):
             if g.ifs:
                 for inode in g.ifs:
                     self.visit_in_flow(inode, p)
+                # conditions run before what follows them: names they bind (walrus) are visible there
+                p = self.make_flow('comp-if', [p])
 
         elt = getattr(node, 'elt', None) or node.value  # type: ast.AST # type: ignore[union-attr]
         self.visit_in_flow(elt, p)
